@@ -96,6 +96,15 @@ def check_pair(part, db, qt, u, v, c, full=True):
         g = conv(qt, [(u, 1)], [(v, 1)], x)
         if not same(g, e, i):
             bad("db.Convert(exponent lists)", g, e, "db.Convert(qt, [(u, 1)], [(v, 1)], x)")
+        # ... one side given as a plain symbol, the quantity type wrapped in a one-element list
+        for what, f in (("db.Convert(qt, u, [(v, 1)], x)", lambda: conv(qt, u, [(v, 1)], x)), ("db.Convert(qt, [(u, 1)], v, x)", lambda: conv(qt, [(u, 1)], v, x)), ("db.Convert([qt], [(u, 1)], [(v, 1)], x)", lambda: conv([qt], [(u, 1)], [(v, 1)], x))):
+            n += 1
+            try:
+                g = f()
+            except Exception as ex:
+                g = repr(ex)
+            if not same(g, e, i):
+                bad("db.Convert(exponent lists, mixed forms)", g, e, what)
         # category name instead of the quantity type
         n += 1
         g = conv(c, u, v, x)
